@@ -20,17 +20,18 @@ package simrt
 
 import (
 	"fmt"
-	"hash/fnv"
 	"math/rand/v2"
 	"reflect"
 	"runtime"
 	"runtime/debug"
 	"sort"
+	"strconv"
 	"strings"
 	"sync"
 	"sync/atomic"
 	"testing/synctest"
 	"time"
+	"unsafe"
 )
 
 // goroutine states
@@ -52,10 +53,12 @@ type G struct {
 	blockOn any
 	prio    int // PCT priority
 	Steps   int
-	held    int // steps left to hold (delay injection)
+	grp     *Group
+	held    int  // steps left to hold (delay injection)
 	fresh   bool // parked since the director last looked
 }
 
+//go:norace
 func (g *G) String() string { return fmt.Sprintf("g%d(%s)@%s", g.ID, g.Name, g.Site) }
 
 // Strategy selects how the next goroutine is chosen.
@@ -68,6 +71,7 @@ const (
 	StratSticky                 // keep running the same goroutine while enabled, switch with prob 1/8
 )
 
+//go:norace
 func (s Strategy) String() string {
 	return [...]string{"random", "pct", "fifo", "sticky"}[s]
 }
@@ -110,10 +114,12 @@ type Sched struct {
 	cfg Config
 	mu  sync.Mutex
 	// registry
-	byGoid  sync.Map // int64 -> *G
+	gtab    []gslot // goid -> *G, open addressing (no runtime map: see race_on.go)
 	all     []*G
-	rng     *rand.Rand
+	rng     *rand.Rand // director-side choices only
+	grng    uint64     // splitmix state for choices drawn on simulated goroutines (select order, map order)
 	arrival chan struct{}
+	lineBuf []byte
 
 	steps    int
 	aborted  atomic.Bool
@@ -124,9 +130,8 @@ type Sched struct {
 	// pct
 	changeAt map[int]bool
 
-	onceMu sync.Mutex
-	onces  map[*sync.Once]*onceState
-	ptrIDs map[any]int // first-seen rank for pointer-like map keys
+	onces  []*onceState
+	groups []*Group
 
 	// event log
 	hash     uint64
@@ -143,27 +148,183 @@ type Sched struct {
 	FocusHolds    int
 	focusLeft     int
 	MapRanges     int
-	Counters      map[string]int
+	counters      []counter
 	Deadlocked    bool // ended with goroutines blocked but nothing enabled and no timer
 	LiveAtEnd     []string
 	RootDone      bool
+	rootFn        func()
 	RootSite      string
 	StepLimit     bool
 }
 
+// Group ties together the harness goroutines that play one party (one
+// simulated client: its reader, its actor, its handlers). It only matters in
+// the race-detector build: the harness relies on the scheduler for mutual
+// exclusion between its goroutines, which the detector cannot see, so members
+// of a group are ordered for the detector at every park/wake (release on
+// park, acquire on wake). Goroutines of the code under test never belong to a
+// group. The universal group (the scenario root, the test driver that has
+// seen everything it waited for) exchanges with every group.
+type Group struct {
+	tok       int64
+	universal bool
+}
+
+// NewGroup creates a party.
+//
+//go:norace
+func NewGroup() *Group {
+	g := &Group{}
+	if s := curSched(); s != nil && RaceEnabled {
+		s.lock()
+		if len(s.groups) == cap(s.groups) {
+			ng := make([]*Group, len(s.groups), 2*cap(s.groups)+16)
+			for i := range s.groups {
+				ng[i] = s.groups[i]
+			}
+			s.groups = ng
+		}
+		s.groups = s.groups[:len(s.groups)+1]
+		s.groups[len(s.groups)-1] = g
+		s.unlock()
+	}
+	return g
+}
+
+//go:norace
+func (s *Sched) fenceRelease(g *G) {
+	if !RaceEnabled || g.grp == nil {
+		return
+	}
+	if !g.grp.universal {
+		raceReleaseMerge(unsafe.Pointer(&g.grp.tok))
+		return
+	}
+	s.lock()
+	n := len(s.groups)
+	s.unlock()
+	for i := 0; i < n; i++ {
+		raceReleaseMerge(unsafe.Pointer(&s.groups[i].tok))
+	}
+}
+
+//go:norace
+func (s *Sched) fenceAcquire(g *G) {
+	if !RaceEnabled || g.grp == nil {
+		return
+	}
+	if !g.grp.universal {
+		raceAcquire(unsafe.Pointer(&g.grp.tok))
+		return
+	}
+	s.lock()
+	n := len(s.groups)
+	s.unlock()
+	for i := 0; i < n; i++ {
+		raceAcquire(unsafe.Pointer(&s.groups[i].tok))
+	}
+}
+
 type onceState struct {
+	o       *sync.Once
 	done    bool
 	running bool
+}
+
+type counter struct {
+	name string
+	n    int
+}
+
+type gslot struct {
+	goid int64 // 0 empty, -1 deleted
+	g    *G
+}
+
+const gtabSize = 1 << 14
+
+// lock/unlock take the scheduler's lock invisibly to the race detector.
+//
+//go:norace
+func (s *Sched) lock() { raceDisable(); s.mu.Lock(); raceEnable() }
+
+//go:norace
+func (s *Sched) unlock() { raceDisable(); s.mu.Unlock(); raceEnable() }
+
+//go:norace
+func (s *Sched) isAborted() bool { raceDisable(); b := s.aborted.Load(); raceEnable(); return b }
+
+//go:norace
+func curSched() *Sched { raceDisable(); s := cur.Load(); raceEnable(); return s }
+
+//go:norace
+func (s *Sched) gput(id int64, g *G) {
+	s.lock()
+	i := int(uint64(id)*0x9e3779b97f4a7c15>>40) & (gtabSize - 1)
+	for n := 0; n < gtabSize; n++ {
+		if s.gtab[i].goid <= 0 {
+			s.gtab[i].goid = id
+			s.gtab[i].g = g
+			s.unlock()
+			return
+		}
+		i = (i + 1) & (gtabSize - 1)
+	}
+	s.unlock()
+	panic("simrt: goroutine table full")
+}
+
+//go:norace
+func (s *Sched) gget(id int64, del bool) *G {
+	s.lock()
+	i := int(uint64(id)*0x9e3779b97f4a7c15>>40) & (gtabSize - 1)
+	for n := 0; n < gtabSize; n++ {
+		sl := &s.gtab[i]
+		if sl.goid == id {
+			g := sl.g
+			if del {
+				sl.goid = -1
+				sl.g = nil
+			}
+			s.unlock()
+			return g
+		}
+		if sl.goid == 0 {
+			break
+		}
+		i = (i + 1) & (gtabSize - 1)
+	}
+	s.unlock()
+	return nil
+}
+
+// grand draws from the goroutine-side PRNG (caller need not hold the lock).
+//
+//go:norace
+func (s *Sched) grand(n int) int {
+	s.lock()
+	s.grng += 0x9e3779b97f4a7c15
+	z := s.grng
+	s.unlock()
+	z = (z ^ (z >> 30)) * 0xbf58476d1ce4e5b9
+	z = (z ^ (z >> 27)) * 0x94d049bb133111eb
+	z ^= z >> 31
+	return int(z % uint64(n))
 }
 
 var cur atomic.Pointer[Sched]
 
 // Active reports whether a scheduler is installed.
-func Active() bool { return cur.Load() != nil }
+//
+//go:norace
+func Active() bool { return curSched() != nil }
 
 // Cur returns the installed scheduler or nil.
-func Cur() *Sched { return cur.Load() }
+//
+//go:norace
+func Cur() *Sched { return curSched() }
 
+//go:norace
 func goid() int64 {
 	var buf [40]byte
 	n := runtime.Stack(buf[:], false)
@@ -179,14 +340,14 @@ func goid() int64 {
 	return id
 }
 
+//go:norace
 func (s *Sched) self() *G {
-	if v, ok := s.byGoid.Load(goid()); ok {
-		return v.(*G)
-	}
-	return nil
+	return s.gget(goid(), false)
 }
 
 // New creates a scheduler; install it with Run.
+//
+//go:norace
 func New(cfg Config) *Sched {
 	if cfg.MaxSteps == 0 {
 		cfg.MaxSteps = 200000
@@ -198,9 +359,9 @@ func New(cfg Config) *Sched {
 		cfg:      cfg,
 		rng:      rand.New(rand.NewPCG(cfg.Seed, cfg.Seed^0x9e3779b97f4a7c15)),
 		arrival:  make(chan struct{}, 1),
-		onces:    map[*sync.Once]*onceState{},
-		ptrIDs:   map[any]int{},
-		Counters: map[string]int{},
+		gtab:     make([]gslot, gtabSize),
+		all:      make([]*G, 0, 1024),
+		grng:     cfg.Seed ^ 0x243f6a8885a308d3,
 		hash:     1469598103934665603,
 		changeAt: map[int]bool{},
 	}
@@ -218,39 +379,56 @@ func New(cfg Config) *Sched {
 	return s
 }
 
-// Rand gives harness code (running as a simulated goroutine, or before the
-// run starts) access to the run's PRNG. Must only be used by the one running
-// goroutine.
-func (s *Sched) Rand() *rand.Rand { return s.rng }
-
 // Steps returns the number of scheduling steps so far.
+//
+//go:norace
 func (s *Sched) StepCount() int { return s.steps }
 
 // Hash returns the event-log hash.
+//
+//go:norace
 func (s *Sched) Hash() uint64 { return s.hash }
 
 // LogLines returns the textual event log (if KeepLog).
+//
+//go:norace
 func (s *Sched) LogLines() []string { return s.logLines }
 
 // Panics returns panics caught in simulated goroutines.
+//
+//go:norace
 func (s *Sched) Panics() []PanicInfo { return s.panics }
 
 // Aborted reports whether the run was aborted, and why.
-func (s *Sched) Aborted() (bool, string) { return s.aborted.Load(), s.abortMsg }
+//
+//go:norace
+func (s *Sched) Aborted() (bool, string) { return s.isAborted(), s.abortMsg }
 
 // Now returns the virtual time elapsed since the run started.
+//
+//go:norace
 func (s *Sched) Elapsed() time.Duration { return time.Since(s.start) }
 
+//go:norace
 func (s *Sched) logf(format string, a ...any) {
-	line := fmt.Sprintf(format, a...)
-	h := fnv.New64a()
-	var b [8]byte
+	s.logLine(fmt.Sprintf(format, a...))
+}
+
+// logLine folds one line into the event-log hash (FNV-1a, chained).
+//
+//go:norace
+func (s *Sched) logLine(line string) {
+	h := uint64(14695981039346656037)
+	x := s.hash
 	for i := 0; i < 8; i++ {
-		b[i] = byte(s.hash >> (8 * i))
+		h ^= uint64(byte(x >> (8 * i)))
+		h *= 1099511628211
 	}
-	h.Write(b[:])
-	h.Write([]byte(line))
-	s.hash = h.Sum64()
+	for i := 0; i < len(line); i++ {
+		h ^= uint64(line[i])
+		h *= 1099511628211
+	}
+	s.hash = h
 	if s.cfg.KeepLog {
 		s.logLines = append(s.logLines, line)
 	}
@@ -258,57 +436,109 @@ func (s *Sched) logf(format string, a ...any) {
 
 // Log adds a harness observation to the event log (and hash). Only call from
 // the running goroutine.
+//
+//go:norace
 func Log(format string, a ...any) {
-	s := cur.Load()
+	s := curSched()
 	if s == nil {
 		return
 	}
-	s.mu.Lock()
+	s.lock()
 	s.logf("  obs t=%v "+format, append([]any{time.Since(s.start)}, a...)...)
-	s.mu.Unlock()
+	s.unlock()
 }
 
 // Count bumps a named statistic counter (rare-condition probes).
+//
+//go:norace
 func Count(name string) {
-	s := cur.Load()
+	s := curSched()
 	if s == nil {
 		return
 	}
-	s.mu.Lock()
-	s.Counters[name]++
-	s.mu.Unlock()
+	s.count(name)
 }
 
+//go:norace
+func (s *Sched) count(name string) {
+	s.lock()
+	for i := range s.counters {
+		if s.counters[i].name == name {
+			s.counters[i].n++
+			s.unlock()
+			return
+		}
+	}
+	if len(s.counters) == cap(s.counters) {
+		nc := make([]counter, len(s.counters), 2*cap(s.counters)+16)
+		for i := range s.counters {
+			nc[i] = s.counters[i]
+		}
+		s.counters = nc
+	}
+	s.counters = s.counters[:len(s.counters)+1]
+	s.counters[len(s.counters)-1] = counter{name, 1}
+	s.unlock()
+}
+
+// Counters returns the named statistic counters (call after the run).
+//
+//go:norace
+func (s *Sched) Counters() map[string]int {
+	m := map[string]int{}
+	for _, c := range s.counters {
+		m[c.name] = c.n
+	}
+	return m
+}
+
+//go:norace
 func (s *Sched) newG(name string) *G {
-	s.mu.Lock()
+	s.lock()
 	g := &G{ID: len(s.all), Name: name, wake: make(chan struct{}), state: stRunning}
-	g.prio = s.rng.IntN(1 << 20)
-	s.all = append(s.all, g)
-	s.mu.Unlock()
+	s.grng += 0x9e3779b97f4a7c15
+	g.prio = int((s.grng ^ s.grng>>29) * 0xbf58476d1ce4e5b9 >> 44)
+	if len(s.all) == cap(s.all) {
+		na := make([]*G, len(s.all), 2*cap(s.all))
+		for i := range s.all {
+			na[i] = s.all[i]
+		}
+		s.all = na
+	}
+	s.all = s.all[:len(s.all)+1]
+	s.all[len(s.all)-1] = g
+	s.unlock()
 	return g
 }
 
+//go:norace
 func (s *Sched) park(g *G, st int32, on any, site string) {
-	s.mu.Lock()
+	s.lock()
 	g.state = st
 	g.blockOn = on
 	g.Site = site
 	g.fresh = true
-	s.mu.Unlock()
+	s.unlock()
+	s.fenceRelease(g)
+	raceDisable()
 	select {
 	case s.arrival <- struct{}{}:
 	default:
 	}
 	<-g.wake
-	if s.aborted.Load() {
+	raceEnable()
+	s.fenceAcquire(g)
+	if s.isAborted() {
 		runtime.Goexit()
 	}
 }
 
 // Yield parks the calling goroutine until the director releases it.
+//
+//go:norace
 func Yield(site string) {
-	s := cur.Load()
-	if s == nil || s.aborted.Load() {
+	s := curSched()
+	if s == nil || s.isAborted() {
 		return
 	}
 	g := s.self()
@@ -318,11 +548,31 @@ func Yield(site string) {
 	s.park(g, stParked, nil, site)
 }
 
+// Pre is called before every potentially blocking operation. It only matters
+// in the race-detector build: a harness goroutine about to block publishes
+// what it did to its party (see Group).
+//
+//go:norace
+func Pre() {
+	if !RaceEnabled {
+		return
+	}
+	s := curSched()
+	if s == nil {
+		return
+	}
+	if g := s.self(); g != nil && g.grp != nil {
+		s.fenceRelease(g)
+	}
+}
+
 // WaitQuiescent parks the calling (harness) goroutine until no other
 // goroutine is enabled at the current virtual instant.
+//
+//go:norace
 func WaitQuiescent(site string) {
-	s := cur.Load()
-	if s == nil || s.aborted.Load() {
+	s := curSched()
+	if s == nil || s.isAborted() {
 		return
 	}
 	g := s.self()
@@ -333,9 +583,11 @@ func WaitQuiescent(site string) {
 }
 
 // Go starts fn as a simulated goroutine.
+//
+//go:norace
 func Go(site string, fn func()) {
-	s := cur.Load()
-	if s == nil || s.aborted.Load() {
+	s := curSched()
+	if s == nil || s.isAborted() {
 		go fn()
 		return
 	}
@@ -347,29 +599,48 @@ func Go(site string, fn func()) {
 	go s.runG(g, fn)
 }
 
+// GoIn starts fn as a simulated harness goroutine belonging to party grp.
+//
+//go:norace
+func GoIn(grp *Group, site string, fn func()) {
+	s := curSched()
+	if s == nil || s.isAborted() {
+		go fn()
+		return
+	}
+	g := s.newG(site)
+	g.grp = grp
+	go s.runG(g, fn)
+}
+
+//go:norace
 func (s *Sched) runG(g *G, fn func()) {
-	s.byGoid.Store(goid(), g)
+	s.gput(goid(), g)
 	defer func() {
 		if r := recover(); r != nil {
-			s.mu.Lock()
+			s.lock()
 			s.panics = append(s.panics, PanicInfo{G: g.Name, Value: fmt.Sprint(r), Stack: string(debug.Stack())})
 			s.logf("  PANIC in %s: %v", g.Name, r)
-			s.mu.Unlock()
+			s.unlock()
 			s.abort("panic in " + g.Name + ": " + fmt.Sprint(r))
 		}
-		s.byGoid.Delete(goid())
-		s.mu.Lock()
+		s.gget(goid(), true)
+		s.fenceRelease(g)
+		s.lock()
 		g.state = stExited
-		s.mu.Unlock()
+		s.unlock()
+		raceDisable()
 		select {
 		case s.arrival <- struct{}{}:
 		default:
 		}
+		raceEnable()
 	}()
 	s.park(g, stParked, nil, "start:"+g.Name)
 	fn()
 }
 
+//go:norace
 func (s *Sched) abort(msg string) {
 	if s.aborted.CompareAndSwap(false, true) {
 		s.abortMsg = msg
@@ -377,16 +648,20 @@ func (s *Sched) abort(msg string) {
 }
 
 // Abort ends the run from harness code (e.g. on an invariant violation).
+//
+//go:norace
 func Abort(msg string) {
-	if s := cur.Load(); s != nil {
+	if s := curSched(); s != nil {
 		s.abort(msg)
 	}
 }
 
 // Live returns registered goroutines that have not exited, with their state.
+//
+//go:norace
 func (s *Sched) Live() []string {
-	s.mu.Lock()
-	defer s.mu.Unlock()
+	s.lock()
+	defer s.unlock()
 	var out []string
 	for _, g := range s.all {
 		if g.state != stExited {
@@ -396,6 +671,7 @@ func (s *Sched) Live() []string {
 	return out
 }
 
+//go:norace
 func stName(st int32) string {
 	return [...]string{"blocked-in-op", "parked", "mutex-blocked", "quiesce-wait", "exited"}[st]
 }
@@ -404,6 +680,8 @@ func stName(st int32) string {
 // until the system is idle. It must be called from the root goroutine of a
 // synctest bubble. It returns when root has returned and nothing more can
 // happen before the horizon, or when the run is aborted.
+//
+//go:norace
 func (s *Sched) Run(root func()) {
 	if !cur.CompareAndSwap(nil, s) {
 		panic("simrt: scheduler already installed")
@@ -411,16 +689,20 @@ func (s *Sched) Run(root func()) {
 	defer cur.Store(nil)
 	s.start = time.Now()
 	g := s.newG("root")
-	rootDone := false
-	go s.runG(g, func() { root(); rootDone = true })
-	defer func() { s.RootDone = rootDone; s.RootSite = g.Site }()
+	g.grp = &Group{universal: true}
+	s.rootFn = root
+	go s.runG(g, s.runRoot)
+	defer s.noteRoot(g)
+	// the director's own synchronisation is invisible to the race detector
+	raceDisable()
+	defer raceEnable()
 
 	for {
 		synctest.Wait()
-		if s.aborted.Load() {
+		if s.isAborted() {
 			break
 		}
-		s.mu.Lock()
+		s.lock()
 		var enabled, quiesce []*G
 		live := 0
 		for _, g := range s.all {
@@ -437,12 +719,12 @@ func (s *Sched) Run(root func()) {
 			}
 		}
 		if live == 0 {
-			s.mu.Unlock()
+			s.unlock()
 			break
 		}
 		if s.steps >= s.cfg.MaxSteps {
 			s.StepLimit = true
-			s.mu.Unlock()
+			s.unlock()
 			s.abort("step limit")
 			break
 		}
@@ -460,12 +742,21 @@ func (s *Sched) Run(root func()) {
 			pick.Steps++
 			pick.state = stRunning
 			s.last = pick
-			s.logf("%d t=%v g%d %s", s.steps, time.Since(s.start), pick.ID, pick.Site)
-			s.mu.Unlock()
+			b := s.lineBuf[:0]
+			b = strconv.AppendInt(b, int64(s.steps), 10)
+			b = append(b, " t="...)
+			b = append(b, time.Since(s.start).String()...)
+			b = append(b, " g"...)
+			b = strconv.AppendInt(b, int64(pick.ID), 10)
+			b = append(b, ' ')
+			b = append(b, pick.Site...)
+			s.lineBuf = b
+			s.logLine(string(b))
+			s.unlock()
 			pick.wake <- struct{}{}
 			continue
 		}
-		s.mu.Unlock()
+		s.unlock()
 		// Nothing enabled: let virtual time advance to the next timer.
 		select {
 		case <-s.arrival:
@@ -484,35 +775,37 @@ func (s *Sched) Run(root func()) {
 			// A goroutine's own timer may have fired at the very same
 			// instant as the horizon timer: look again before giving up.
 			synctest.Wait()
-			s.mu.Lock()
+			s.lock()
 			again := false
 			for _, g := range s.all {
 				if g.state == stParked || g.state == stQuiesce {
 					again = true
 				}
 			}
-			s.mu.Unlock()
+			s.unlock()
 			if again {
 				s.TimeAdvances++
 				continue
 			}
 			// Idle until the horizon: nothing will ever happen again.
-			if !rootDone || live > 0 {
+			if !s.RootDone || live > 0 {
 				s.Deadlocked = true
 			}
-			s.mu.Lock()
-			s.logf("idle-to-horizon live=%d", live)
-			s.mu.Unlock()
+			s.lock()
+			s.logLine("idle-to-horizon live=" + strconv.Itoa(live))
+			s.unlock()
 			goto done
 		}
 	}
 done:
+	raceEnable()
 	s.LiveAtEnd = s.Live()
+	raceDisable()
 	// Tear down: release parked goroutines so they can Goexit.
 	s.abort("run finished")
 	for {
 		synctest.Wait()
-		s.mu.Lock()
+		s.lock()
 		var rel []*G
 		for _, g := range s.all {
 			if g.state == stParked || g.state == stBlocked || g.state == stQuiesce {
@@ -520,7 +813,7 @@ done:
 				g.state = stRunning
 			}
 		}
-		s.mu.Unlock()
+		s.unlock()
 		if len(rel) == 0 {
 			break
 		}
@@ -530,7 +823,15 @@ done:
 	}
 }
 
+//go:norace
+func (s *Sched) runRoot() { s.rootFn(); s.RootDone = true }
+
+//go:norace
+func (s *Sched) noteRoot(g *G) { s.RootSite = g.Site }
+
 // choose picks among enabled goroutines (sorted by id, as s.all is).
+//
+//go:norace
 func (s *Sched) choose(enabled []*G) *G {
 	// apply holds (delay injection): held goroutines are skipped while
 	// anything else is enabled.
@@ -616,8 +917,10 @@ func (s *Sched) choose(enabled []*G) *G {
 // ---- mutex / once emulation -------------------------------------------
 
 // Lock acquires m without ever blocking non-durably.
+//
+//go:norace
 func Lock(m *sync.Mutex, site string) {
-	s := cur.Load()
+	s := curSched()
 	var g *G
 	if s != nil {
 		g = s.self()
@@ -627,7 +930,7 @@ func Lock(m *sync.Mutex, site string) {
 		return
 	}
 	for !m.TryLock() {
-		if s.aborted.Load() {
+		if s.isAborted() {
 			runtime.Goexit()
 		}
 		s.park(g, stBlocked, m, site)
@@ -635,24 +938,26 @@ func Lock(m *sync.Mutex, site string) {
 }
 
 // Unlock releases m and enables goroutines waiting for it.
+//
+//go:norace
 func Unlock(m *sync.Mutex, site ...string) {
 	m.Unlock()
-	s := cur.Load()
+	s := curSched()
 	if s == nil {
 		return
 	}
-	s.mu.Lock()
+	s.lock()
 	for _, g := range s.all {
 		if g.state == stBlocked && g.blockOn == any(m) {
 			g.state = stParked
 			g.blockOn = nil
 		}
 	}
-	s.mu.Unlock()
+	s.unlock()
 	// Releasing a lock is a visible operation: yield after it, so that
 	// whatever follows (typically a channel operation) is not glued to the
 	// critical section into one atomic step.
-	if !s.aborted.Load() {
+	if !s.isAborted() {
 		if g := s.self(); g != nil {
 			st := "unlock"
 			if len(site) > 0 {
@@ -664,8 +969,10 @@ func Unlock(m *sync.Mutex, site ...string) {
 }
 
 // OnceDo is sync.Once.Do for simulated goroutines.
+//
+//go:norace
 func OnceDo(o *sync.Once, site string, f func()) {
-	s := cur.Load()
+	s := curSched()
 	var g *G
 	if s != nil {
 		g = s.self()
@@ -674,36 +981,50 @@ func OnceDo(o *sync.Once, site string, f func()) {
 		o.Do(f)
 		return
 	}
-	s.onceMu.Lock()
-	st := s.onces[o]
+	s.lock()
+	var st *onceState
+	for _, x := range s.onces {
+		if x.o == o {
+			st = x
+		}
+	}
 	if st == nil {
-		st = &onceState{}
-		s.onces[o] = st
+		st = &onceState{o: o}
+		if len(s.onces) == cap(s.onces) {
+			no := make([]*onceState, len(s.onces), 2*cap(s.onces)+16)
+			for i := range s.onces {
+				no[i] = s.onces[i]
+			}
+			s.onces = no
+		}
+		s.onces = s.onces[:len(s.onces)+1]
+		s.onces[len(s.onces)-1] = st
 	}
 	for st.running {
-		s.onceMu.Unlock()
+		s.unlock()
 		s.park(g, stBlocked, o, site)
-		s.onceMu.Lock()
+		s.lock()
 	}
 	if st.done {
-		s.onceMu.Unlock()
+		s.unlock()
+		// what sync.Once guarantees: f's completion happens before any Do returns
+		raceAcquire(unsafe.Pointer(o))
 		return
 	}
 	st.running = true
-	s.onceMu.Unlock()
+	s.unlock()
 	defer func() {
-		s.onceMu.Lock()
+		raceReleaseMerge(unsafe.Pointer(o))
+		s.lock()
 		st.running = false
 		st.done = true
-		s.onceMu.Unlock()
-		s.mu.Lock()
 		for _, g := range s.all {
 			if g.state == stBlocked && g.blockOn == any(o) {
 				g.state = stParked
 				g.blockOn = nil
 			}
 		}
-		s.mu.Unlock()
+		s.unlock()
 	}()
 	f()
 }
@@ -711,39 +1032,48 @@ func OnceDo(o *sync.Once, site string, f func()) {
 // ---- select ------------------------------------------------------------
 
 // SelOrder returns the order in which a rewritten select polls its cases.
+//
+//go:norace
 func SelOrder(site string, n int) []int {
 	p := make([]int, n)
 	for i := range p {
 		p[i] = i
 	}
-	s := cur.Load()
+	s := curSched()
 	if s == nil || s.self() == nil {
 		rand.Shuffle(n, func(i, j int) { p[i], p[j] = p[j], p[i] })
 		return p
 	}
-	s.rng.Shuffle(n, func(i, j int) { p[i], p[j] = p[j], p[i] })
+	for i := n - 1; i > 0; i-- {
+		j := s.grand(i + 1)
+		p[i], p[j] = p[j], p[i]
+	}
 	return p
 }
 
 // Zero returns the zero value of a channel's element type; used by
 // rewritten selects to declare receive temporaries without naming the type.
+//
+//go:norace
 func Zero[T any](c <-chan T) (v T, ok bool) { return }
 
 // Drop is consulted by rewritten try-sends; true means "behave as if the
 // queue were full".
+//
+//go:norace
 func Drop(site string, ch any, v any) bool {
-	s := cur.Load()
-	if s == nil || s.cfg.DropHook == nil || s.aborted.Load() {
+	s := curSched()
+	if s == nil || s.cfg.DropHook == nil || s.isAborted() {
 		return false
 	}
 	if s.self() == nil {
 		return false
 	}
 	if s.cfg.DropHook(site, ch, v) {
-		s.mu.Lock()
+		s.lock()
 		s.Drops++
-		s.logf("  drop-injected %s", site)
-		s.mu.Unlock()
+		s.logLine("  drop-injected " + site)
+		s.unlock()
 		return true
 	}
 	return false
@@ -753,6 +1083,8 @@ func Drop(site string, ch any, v any) bool {
 
 // Keys returns m's keys in a canonical order (then seed-permuted when
 // ShuffleMaps is on), replacing Go's randomised iteration order.
+//
+//go:norace
 func Keys[M ~map[K]V, K comparable, V any](m M) []K {
 	n := len(m)
 	if n == 0 {
@@ -765,7 +1097,7 @@ func Keys[M ~map[K]V, K comparable, V any](m M) []K {
 	if n == 1 {
 		return keys
 	}
-	s := cur.Load()
+	s := curSched()
 	if s == nil || s.self() == nil {
 		return keys
 	}
@@ -789,11 +1121,14 @@ func Keys[M ~map[K]V, K comparable, V any](m M) []K {
 	for i, j := range idx {
 		out[i] = keys[j]
 	}
-	s.mu.Lock()
+	s.lock()
 	s.MapRanges++
-	s.mu.Unlock()
+	s.unlock()
 	if s.cfg.ShuffleMaps {
-		s.rng.Shuffle(n, func(i, j int) { out[i], out[j] = out[j], out[i] })
+		for i := n - 1; i > 0; i-- {
+			j := s.grand(i + 1)
+			out[i], out[j] = out[j], out[i]
+		}
 	}
 	return out
 }
@@ -801,6 +1136,7 @@ func Keys[M ~map[K]V, K comparable, V any](m M) []K {
 // KeyStringer lets the harness teach simrt how to order exotic keys.
 var KeyStringer func(k any) (string, bool)
 
+//go:norace
 func (s *Sched) keyString(k any) string {
 	if KeyStringer != nil {
 		if str, ok := KeyStringer(k); ok {
@@ -812,11 +1148,11 @@ func (s *Sched) keyString(k any) string {
 	case reflect.String:
 		return v.String()
 	case reflect.Int, reflect.Int8, reflect.Int16, reflect.Int32, reflect.Int64:
-		return fmt.Sprintf("%021d", v.Int()+(1<<62))
+		return pad21(uint64(v.Int() + (1 << 62)))
 	case reflect.Uint, reflect.Uint8, reflect.Uint16, reflect.Uint32, reflect.Uint64:
-		return fmt.Sprintf("%021d", v.Uint())
+		return pad21(v.Uint())
 	case reflect.Bool:
-		return fmt.Sprint(v.Bool())
+		return strconv.FormatBool(v.Bool())
 	case reflect.Struct:
 		var b strings.Builder
 		for i := 0; i < v.NumField(); i++ {
@@ -825,11 +1161,11 @@ func (s *Sched) keyString(k any) string {
 			case reflect.String:
 				b.WriteString(f.String())
 			case reflect.Int, reflect.Int8, reflect.Int16, reflect.Int32, reflect.Int64:
-				fmt.Fprintf(&b, "%021d", f.Int()+(1<<62))
+				b.WriteString(pad21(uint64(f.Int() + (1 << 62))))
 			case reflect.Uint, reflect.Uint8, reflect.Uint16, reflect.Uint32, reflect.Uint64:
-				fmt.Fprintf(&b, "%021d", f.Uint())
+				b.WriteString(pad21(f.Uint()))
 			default:
-				fmt.Fprintf(&b, "?%v", f.Kind())
+				b.WriteString("?" + f.Kind().String())
 				s.noteUnordered()
 			}
 			b.WriteByte('|')
@@ -848,9 +1184,9 @@ func (s *Sched) keyString(k any) string {
 				}
 				switch f.Kind() {
 				case reflect.Uint, reflect.Uint8, reflect.Uint16, reflect.Uint32, reflect.Uint64:
-					return fmt.Sprintf("%021d", f.Uint())
+					return pad21(f.Uint())
 				case reflect.Int, reflect.Int8, reflect.Int16, reflect.Int32, reflect.Int64:
-					return fmt.Sprintf("%021d", f.Int()+(1<<62))
+					return pad21(uint64(f.Int() + (1 << 62)))
 				case reflect.String:
 					return f.String()
 				}
@@ -861,12 +1197,22 @@ func (s *Sched) keyString(k any) string {
 	return "?"
 }
 
-func (s *Sched) noteUnordered() {
-	s.mu.Lock()
-	s.Counters["unordered_map_key"]++
-	s.mu.Unlock()
+//go:norace
+func pad21(u uint64) string {
+	var b [21]byte
+	for i := 20; i >= 0; i-- {
+		b[i] = byte('0' + u%10)
+		u /= 10
+	}
+	return string(b[:])
 }
 
+//go:norace
+func (s *Sched) noteUnordered() {
+	s.count("unordered_map_key")
+}
+
+//go:norace
 func siteHash(site string, seed uint64) uint64 {
 	h := seed ^ 0xcbf29ce484222325
 	for i := 0; i < len(site); i++ {
